@@ -7,4 +7,11 @@ PROPS = {
         "explanation": "theorems C15_* over all lists of any item type with decidable equality; correspondence model-vs-implementation exhaustive over a small alphabet plus random",
         "assumptions": ["Rust PartialEq on the item type is a decidable equality (u8, String)"],
     },
+    "C03": {
+        "corr": ["CoreCorr"],
+        "projection": "events (DOM -> reader events), tree (full internal Element state after parse/extend), dom (document-level presentation of the model)",
+        "level": "proof",
+        "explanation": "inference exactness: theorems over all documents; correspondence on exhaustive small documents and random sequences; oracle = Spec.infer applied to the implementation's tree",
+        "assumptions": ["the reader event stream recorded by an independent pass is what into_struct/extend_struct consume (quick_xml::Reader is the input of the model)"],
+    },
 }
